@@ -29,6 +29,12 @@ def run(ctx):
     from . import gram
     gram.literal_text_premises(ctx, ctx.grammar, "C03-G")
     gram.g18_message_not_key(ctx, ctx.grammar, "C03-G")
+    # "a statement that already carries a valid reference receives nothing": which text is a valid reference is C12's
+    # accept / reject boundary (regex rows) and, for the key-value form, C13's value rows
+    from . import c12 as _c12, c13 as _c13
+    from .c06 import _run_as as _run_as06
+    _run_as06(_c12, _Only(ctx, "C03-R6", ("regex-language", "regex-anchor", "regex-groups", "regex-group-span", "regex-use", "haystack", "parse-u32", "group-1")), ctx)
+    _run_as06(_c13, _Only(ctx, "C03-R6", ("key-constant", "key-source", "key-compare", "key-text", "value-parse", "value-text", "value-layout")), ctx)
     # "only inserts tokens" also means that nothing is lost: what is renamed over the source is the complete new text.
     # async-std buffers writes, so a failed write of the last chunk shows only at flush / sync; if that error does not
     # stop the rename, a file without its tail replaces the source (C07-R2 / R3 as premises)
